@@ -309,15 +309,26 @@ func (x *Exec) branch(c *Term) bool {
 		return false
 	}
 	nc := x.F.Not(c)
+	firstUnsat := false
 	ch := x.decide(2, func(i int) bool {
 		if i == 0 {
-			return x.check(c) == Sat
+			r := x.check(c) == Sat
+			if r {
+				x.pcUnchecked = false
+			} else {
+				firstUnsat = true
+			}
+			return r
 		}
-		// if the true side was infeasible the false side must be feasible (pc is satisfiable)
-		if len(x.newWork) == 0 || true {
-			return x.check(nc) == Sat
+		// the pc is known satisfiable: if the true side is infeasible the false side must be feasible
+		if firstUnsat && !x.pcUnchecked {
+			return true
 		}
-		return true
+		r := x.check(nc) == Sat
+		if r {
+			x.pcUnchecked = false
+		}
+		return r
 	})
 	if ch == 0 {
 		x.assume(c)
